@@ -20,6 +20,7 @@ PLAN = dict(
                 "own base32); the command-line path is exercised through the binary built from the tree under test."),
     level_note=NOTE_BASE,
     runs=[
+        dict(name="conc", run="^(TestConcLib)$", checks=(40, 2000), shards=(2, 8), timeout=(400, 3600), race=True),
         dict(name="lib", run="^(TestPropLib|TestCorpus)$", checks=(8000, 100000), shards=(1, 16), timeout=(300, 3600)),
         dict(name="cli", run="^(TestCLILookalikes|TestPropCLI)$", checks=(40, 2000), shards=(1, 1), timeout=(300, 3600)),
     ],
